@@ -10,21 +10,23 @@ import (
 	"go/ast"
 	"go/types"
 	"math/big"
+	"runtime"
 	"sort"
 	"strings"
+	"sync"
 )
 
 //go:embed spec/v40.json
 var v40JSON []byte
 
 type v40Oracle struct {
-	SourceLookup string              `json:"source_lookup"`
-	Lookup       map[string]string   `json:"lookup"`
-	SourceMax    string              `json:"source_max"`
+	SourceLookup string                `json:"source_lookup"`
+	Lookup       map[string]string     `json:"lookup"`
+	SourceMax    string                `json:"source_max"`
 	Max          map[string][][]string `json:"max"`
-	Max36        map[string][]string `json:"max36"`
-	Depth        map[string][]int    `json:"depth_plus_1"`
-	Depth36      map[string]int      `json:"depth36_plus_1"`
+	Max36        map[string][]string   `json:"max36"`
+	Depth        map[string][]int      `json:"depth_plus_1"`
+	Depth36      map[string]int        `json:"depth36_plus_1"`
 }
 
 var v40 v40Oracle
@@ -401,48 +403,85 @@ func (w *World) rulesV4Tables(out *[]Obligation) {
 			add(false, "R04.eq", inst, mv, fmt.Sprintf("EQ%d depends on %v: too many combinations to tabulate (undecided)", K, inputs))
 			continue
 		}
-		codes := map[string]int{}
-		bad := 0
-		var firstBad string
-		evals := 0
-		var rec func(i int) error
-		rec = func(i int) error {
+		// enumerate all rows, evaluate them on all cores
+		var rows [][]int
+		cur := make([]int, len(inputs))
+		var gen func(i int)
+		gen = func(i int) {
 			if i == len(inputs) {
-				bytes, err := p.bytesFromCodes(codes)
-				if err != nil {
-					return err
-				}
-				v, err := newCEnv(p, bytes).callFunc(mv, nil, mv)
-				if err != nil {
-					return err
-				}
-				evals++
-				if v.K != VTuple || len(v.T) != 6 || v.T[K-1].K != VInt {
-					return fmt.Errorf("macroVector returned %s", v)
-				}
-				want := eqOracle[K](p.effOf(codes))
-				if int(v.T[K-1].I) != want {
-					bad++
-					if firstBad == "" {
-						var parts []string
-						for _, in := range inputs {
-							parts = append(parts, in+":"+sm.ByLabel[in].List[codes[in]])
-						}
-						firstBad = fmt.Sprintf("for %s the code gives EQ%d=%d, the specification (on effective values, X defaults applied) gives %d", strings.Join(parts, "/"), K, v.T[K-1].I, want)
-					}
-				}
-				return nil
+				rows = append(rows, append([]int(nil), cur...))
+				return
 			}
 			for c := range sm.ByLabel[inputs[i]].List {
-				codes[inputs[i]] = c
-				if err := rec(i + 1); err != nil {
-					return err
-				}
+				cur[i] = c
+				gen(i + 1)
 			}
-			return nil
 		}
-		if err := rec(0); err != nil {
-			add(false, "R04.eq", inst, mv, "cannot tabulate: "+err.Error())
+		gen(0)
+		type res struct {
+			bad   int
+			first string
+			err   error
+		}
+		nw := runtime.NumCPU()
+		if nw > 16 {
+			nw = 16
+		}
+		results := make([]res, nw)
+		var wg sync.WaitGroup
+		for wi := 0; wi < nw; wi++ {
+			wg.Add(1)
+			go func(wi int) {
+				defer wg.Done()
+				r := &results[wi]
+				for ri := wi; ri < len(rows); ri += nw {
+					codes := map[string]int{}
+					for j, in := range inputs {
+						codes[in] = rows[ri][j]
+					}
+					bytes, err := p.bytesFromCodes(codes)
+					if err != nil {
+						r.err = err
+						return
+					}
+					v, err := newCEnv(p, bytes).callFunc(mv, nil, mv)
+					if err != nil {
+						r.err = err
+						return
+					}
+					if v.K != VTuple || len(v.T) != 6 || v.T[K-1].K != VInt {
+						r.err = fmt.Errorf("macroVector returned %s", v)
+						return
+					}
+					want := eqOracle[K](p.effOf(codes))
+					if int(v.T[K-1].I) != want {
+						r.bad++
+						if r.first == "" {
+							var parts []string
+							for _, in := range inputs {
+								parts = append(parts, in+":"+sm.ByLabel[in].List[codes[in]])
+							}
+							r.first = fmt.Sprintf("for %s the code gives EQ%d=%d, the specification (on effective values, X defaults applied) gives %d", strings.Join(parts, "/"), K, v.T[K-1].I, want)
+						}
+					}
+				}
+			}(wi)
+		}
+		wg.Wait()
+		bad, evals := 0, len(rows)
+		var firstBad string
+		var rerr error
+		for _, r := range results {
+			bad += r.bad
+			if firstBad == "" {
+				firstBad = r.first
+			}
+			if r.err != nil {
+				rerr = r.err
+			}
+		}
+		if rerr != nil {
+			add(false, "R04.eq", inst, mv, "cannot tabulate: "+rerr.Error())
 			continue
 		}
 		totalEvals += evals
